@@ -259,7 +259,14 @@ func ruleC01(c *Ctx) {
 			case producerOf(v) != exp.producer:
 				stt = unknown
 			}
-			c.judge(stt, "FIELDMAP-R", kw+"->"+exp.field, st.Pos(), "keyword "+kw+" fills Meta."+fld+" via "+producerOf(v), fmt.Sprintf("keyword %s stores %s into Meta.%s; the format assigns %s to Meta.%s", kw, producerOf(v), fld, kw, exp.field))
+			whyKW := fmt.Sprintf("keyword %s stores %s into Meta.%s; the format assigns %s to Meta.%s", kw, producerOf(v), fld, kw, exp.field)
+			if stt == unknown && known && exp.field == fld && exp.producer == "poly/io/genbank.joinSubLines" {
+				// a block that may wrap: the value has to be made from the lines that follow the keyword line too
+				if one, lst := readsOnlyOneLine(v); one {
+					stt, whyKW = broken, fmt.Sprintf("under %s, Meta.%s is made from the keyword line alone (%s): nothing of the list of lines %s beyond that one line goes into it, so the wrapped continuation lines of the block are lost", kw, fld, short(v.String()), short(lst))
+				}
+			}
+			c.judge(stt, "FIELDMAP-R", kw+"->"+exp.field, st.Pos(), "keyword "+kw+" fills Meta."+fld+" via "+producerOf(v), whyKW)
 		}
 	}
 	// Other map update
@@ -745,4 +752,55 @@ func checkReferenceHead(c *Ctx, parse *ssa.Function) {
 			c.judge(state, "FIELDMAP-R", "REFERENCE number = first blank-delimited token", st.Pos(), "the reference number is the first token of the line split on single blanks", why)
 		})
 	}
+}
+
+
+// readsOnlyOneLine: v is computed with library string functions only, from ONE element of a list of lines
+// (index(list, i) / each(list)) and from nothing else of that list: no slice of it, no call that is handed
+// the list. Returns the list's term for the message.
+func readsOnlyOneLine(v *Term) (bool, string) {
+	list := ""
+	multi, opaque := false, false
+	var walk func(t *Term, parent *Term)
+	walk = func(t *Term, parent *Term) {
+		if t == nil {
+			return
+		}
+		switch t.Op {
+		case "call":
+			if !strings.HasPrefix(t.Name, "strings.") && !strings.HasPrefix(t.Name, "bytes.") && !strings.HasPrefix(t.Name, "builtin:") {
+				opaque = true
+			}
+		case "phi", "rec", "anyof", "alloc", "freevar", "unknown", "deref", "field", "global", "lookup":
+			opaque = true
+		}
+		if (t.Op == "each" || t.Op == "index") && len(t.Args) > 0 && t.Args[0].isCall("strings.Split") && len(t.Args[0].Args) == 2 && (t.Args[0].Args[1].isConst(`"\n"`) || t.Args[0].Args[1].isConst("\"\\n\"")) {
+			list = t.Args[0].String()
+		}
+		for _, a := range t.Args {
+			walk(a, t)
+		}
+	}
+	walk(v, nil)
+	if list == "" || opaque {
+		return false, list
+	}
+	// any occurrence of the list that is not the operand of each/index reads more than one line
+	var occ func(t *Term, parent *Term)
+	occ = func(t *Term, parent *Term) {
+		if t == nil {
+			return
+		}
+		if t.String() == list {
+			if parent == nil || !((parent.Op == "each" || parent.Op == "index") && parent.Args[0] == t) {
+				multi = true
+			}
+			return
+		}
+		for _, a := range t.Args {
+			occ(a, t)
+		}
+	}
+	occ(v, nil)
+	return !multi, list
 }
